@@ -281,3 +281,16 @@ CLAIMS["C08"]["note"] += (" RSA is exempt from the 'identical Raw' clause only: 
 CLAIMS["C06"]["text"] += (" Notifiees that sign off from inside their first callback, or sign on / off at generated instants, are registered before, between or after the two permanent notifiees: the permanent ones keep the exactly-once rules, the transient ones observe every event at most once.")
 CLAIMS["C06"]["note"] += (" In cases with transient notifiees callbacks do not linger (a callback sleeping in virtual time while Notify/StopNotify waits for the swarm's registry lock would stall the bubble).")
 CLAIMS["C09"]["text"] += (" A third, focused property (four single-address peers, refreshes in the three finite TTL classes overtaking each other's expiries, clock advances in GC-period slices) checks PeersWithAddrs of both books after every slice: live => listed, expired for two GC periods => gone.")
+
+CLAIMS["C04"]["text"] += (" In the swarm pairs the dialling side may finish failed streams with Close() only while the echo handler resets every k-th stream first; a third of the cases schedule no Swarm.Close and a mid-life audit, 100 s after the last stream, demands that no stream is charged or listed any more while connections are still up.")
+CLAIMS["C14"]["text"] += (" Overlapping tag operations on one peer are generated with a harness-owned schedule: an UpsertTag whose callback starts a second operation on the same peer on another goroutine (TagPeer/UntagPeer/UpsertTag of the same tag, a decaying bump, Connected, the peer's last Disconnected, "
+    "a trim that may prune the peer's buffered entry, ForceTrim) and yields before returning; after both return, the peer's tags and cached total must be the result of one of the two serial orders, and an overlapping trim must be right for the peer's value before or after the upsert.")
+CLAIMS["C14"]["note"] += (" The overlap window is the upsert callback, bounded by 300 scheduler yields rather than time (a mutex waiter keeps a synctest bubble busy); both serial orders are accepted.")
+CLAIMS["C10"]["text"] += (" The QUIC and WebTransport transports' own gating call sites (listener and dialer) are driven with the real transports over simnet, WebTransport alone or sharing ConnManager and UDP port with QUIC, under both quicreuse.ConnManager configurations (bare, and with libp2p.New's ConnContext option that opens the resource-manager scope at QUIC accept): "
+    "a refused remote never appears in ConnsToPeer/Connected, never sees a dial from the gated node, and holds no open connection shortly after its own dial.")
+CLAIMS["C10"]["note"] = CLAIMS["C10"]["note"].replace("WebTransport and WebRTC listener call sites are not driven.", "The WebRTC listener's own call site is not driven; the scope-at-accept configuration copies the ConnContext function of config/config.go over a NullResourceManager (no full libp2p.New host).")
+CLAIMS["C18"]["text"] += (" Dialer side, end to end: 2000 (quick) / 40000 (thorough) generated dialled addresses - certhash sequences of 0-5 multihashes mixing SHA-256 with 16 other codes, genuine and foreign digests, in every position - are dialled through the real transport against real loopback listeners: "
+    "the dial completes only if the served certificate's SHA-256 is in the address and the server confirmed every certhash of the address in its Noise handshake payload, as observed by an independent quic-go/webtransport-go/noise reference client.")
+CLAIMS["C18"]["note"] += (" The end-to-end dials use loopback UDP and real time for I/O only (a 15 s dial timeout makes the case inconclusive); listeners sit on a pinned mock clock.")
+CLAIMS["C19"]["text"] += (" Client side, origin dimension: one ClientPeerIDAuth is used, within and beyond its TokenTTL, against 2-4 origins whose Host strings differ only in port, letter case or a trailing dot, each served by an independent auth server, a replica sharing the HMAC secret under another identity key, "
+    "the same instance under another spelling or behind a Host-rewriting proxy, an unauthenticated endpoint answering 2xx-5xx, or an endpoint replaying another origin's auth headers: a reported server ID must be backed by a signature of that call over the client's challenge, its key and that request's exact Host, or be the replay of that origin's own token to it; a bearer token is never sent to an origin that did not issue it.")
